@@ -202,6 +202,35 @@ def has_yield(node):
 SEQ_TYPES = ("list", "tuple")
 
 
+_assigned_cache = {}
+
+
+def assigned_somewhere(ci, name):
+    """does any method of the class (or of a repository base class) assign self.<name>?"""
+    key = (id(ci), name)
+    if key in _assigned_cache:
+        return _assigned_cache[key]
+    found = False
+    for c in ci.mro():
+        if not isinstance(c, ClassInfo):
+            continue
+        for fi in c.methods.values():
+            for n in ast.walk(fi.node):
+                tgt = None
+                if isinstance(n, ast.Assign):
+                    tgt = n.targets
+                elif isinstance(n, (ast.AnnAssign, ast.AugAssign)):
+                    tgt = [n.target]
+                for t in tgt or []:
+                    for x in ast.walk(t):
+                        if isinstance(x, ast.Attribute) and x.attr == name and isinstance(x.value, ast.Name) and x.value.id in ("self", "cls"):
+                            found = True
+        if name in getattr(c, "slots", ()):
+            found = True
+    _assigned_cache[key] = found
+    return found
+
+
 def type_is_subtype(tn, target):
     """tn: pytype() result; target: builtin type name"""
     if isinstance(tn, ClassInfo):
@@ -214,6 +243,7 @@ def type_is_subtype(tn, target):
         "bool": ["int"],
         "numpy.float64": ["float", "numpy.number", "numpy.floating"],
         "numpy.int64": ["numpy.number", "numpy.integer"],
+        "numpy.float32": ["numpy.number", "numpy.floating"],
         "OrderedDict": ["dict"],
     }
     if tn in chain and target in chain[tn]:
@@ -569,8 +599,8 @@ class Interp:
         if a.extended or b.extended:
             raise OutOfSubset("arithmetic on extended float")
         kind = "int" if (a.is_int and b.is_int) else "float"
-        if "npfloat" in (a.kind, b.kind):
-            kind = "npfloat"
+        if a.kind.startswith("np") or b.kind.startswith("np"):
+            kind = "npfloat32" if "npfloat" not in (a.kind, b.kind) and "float" not in (a.kind, b.kind) else "npfloat"
         if isinstance(op, ast.Add):
             return SNum(z3.simplify(a.t + b.t), kind)
         if isinstance(op, ast.Sub):
@@ -580,7 +610,7 @@ class Interp:
         if isinstance(op, ast.Div):
             if self.P.branch(b.real() == 0):
                 self.raise_("ZeroDivisionError", "division by zero")
-            return SNum(z3.simplify(a.real() / b.real()), "float" if kind != "npfloat" else kind)
+            return SNum(z3.simplify(a.real() / b.real()), "float" if not kind.startswith("np") else kind)
         if isinstance(op, ast.FloorDiv):
             if self.P.branch(b.real() == 0):
                 self.raise_("ZeroDivisionError", "division by zero")
@@ -643,7 +673,16 @@ class Interp:
                 return f
             if name in c.attrs:
                 fr = Frame(c.module, cls=c)
-                return self.eval(c.attrs[name], fr)
+                val = self.eval(c.attrs[name], fr)
+                if isinstance(val, SRef) and isinstance(val.o, (HList, HDict, HSet, HObj)):
+                    # a mutable class-level object is ONE object shared by every access (aliasing and
+                    # in-place changes must be visible): evaluated once per path, region 'class-state'
+                    try:
+                        val.o.region = "class-state"
+                    except Exception:
+                        pass
+                    self.P.ghost.setdefault("classattrs", {})[(c.name, name)] = val
+                return val
         # inherited from external bases
         for bn in ci.base_names():
             key = "%s.%s" % (bn, name)
@@ -673,6 +712,12 @@ class Interp:
                     r = self.class_attr(o.cls, name, instance=v)
                     if r is not None:
                         return r
+                    if assigned_somewhere(o.cls, name):
+                        # the class does assign self.<name> in one of its methods, but this object (built by a
+                        # contract's input schema, or read before that assignment) has no such field: its
+                        # contents depend on the object's history, which no contract describes -> undecided,
+                        # never an AttributeError (a bare `except` would swallow it and take another path)
+                        raise OutOfSubset("field %s.%s is not described by the contracts' object schemas (history-dependent state)" % (o.cls.name, name))
                 self.raise_("AttributeError", name)
             if isinstance(o, HExc):
                 if name in o.fields:
@@ -693,6 +738,12 @@ class Interp:
                 return m
             if name == "__class__":
                 return SType(v.pytype())
+            import collections as _c
+
+            real = {"list": list, "dict": dict, "OrderedDict": _c.OrderedDict, "set": set, "frozenset": frozenset}.get(v.pytype() if isinstance(v.pytype(), str) else "")
+            if real is not None and hasattr(real, name):
+                # the real type has this attribute; the interpreter does not model it: undecided, never AttributeError
+                raise OutOfSubset("%s.%s is not modelled" % (v.pytype(), name))
             self.raise_("AttributeError", name)
         if isinstance(v, SClass):
             if name == "__name__":
@@ -729,6 +780,8 @@ class Interp:
             m = self.B.str_method(self, v, name)
             if m is not None:
                 return m
+            if hasattr(str, name):
+                raise OutOfSubset("str.%s is not modelled" % name)
             self.raise_("AttributeError", name)
         if isinstance(v, STuple):
             if name == "__class__":
@@ -736,12 +789,16 @@ class Interp:
             m = self.B.tuple_method(self, v, name)
             if m is not None:
                 return m
+            if hasattr(tuple, name):
+                raise OutOfSubset("tuple.%s is not modelled" % name)
             self.raise_("AttributeError", name)
         if isinstance(v, SNum):
             if name == "__class__":
                 return SType(v.pytype())
             if name in ("numerator", "denominator") and v.is_int:
                 return v if name == "numerator" else SNum(1)
+            if hasattr(float if not v.is_int else int, name):
+                raise OutOfSubset("%s.%s is not modelled" % (v.pytype(), name))
             self.raise_("AttributeError", name)
         if v is SNone:
             if name == "__class__":
@@ -815,7 +872,19 @@ class Interp:
             return SClass(r)
         if isinstance(r, tuple):
             if r[0] == "const":
-                return self.eval(r[2], Frame(r[1]))
+                key = (getattr(r[1], "name", None), id(r[2]))
+                cache = self.P.ghost.setdefault("module_consts", {})
+                if key in cache:
+                    return cache[key]
+                val = self.eval(r[2], Frame(r[1]))
+                if isinstance(val, SRef) and isinstance(val.o, (HList, HDict, HSet, HObj)):
+                    # a mutable module-level object is one shared object
+                    try:
+                        val.o.region = "module-state"
+                    except Exception:
+                        pass
+                    cache[key] = val
+                return val
             if r[0] == "extmod":
                 nm = r[1]
                 if nm in self.repo.modules:
@@ -1721,6 +1790,11 @@ class Interp:
             b = self.bool_to_num(b)
         if isinstance(a, SNum) and isinstance(b, SNum):
             return self.num_binop(op, a, b)
+        if inplace and isinstance(a, SProto) and hasattr(a, "py_ibinop"):
+            # augmented assignment on a mutable container (ndarray *= k, list += other): the object itself changes
+            r = a.py_ibinop(self, op, b)
+            if r is not NotImplemented:
+                return r
         if isinstance(a, SProto):
             r = a.py_binop(self, op, b, False)
             if r is not NotImplemented:
@@ -1829,6 +1903,13 @@ class Interp:
             return mkbool(self.contains(b, a))
         if isinstance(op, ast.NotIn):
             return mkbool(neg(self.contains(b, a)))
+        if isinstance(op, (ast.Eq, ast.NotEq, ast.Lt, ast.LtE, ast.Gt, ast.GtE)):
+            # numpy arrays compare elementwise (a boolean array), with broadcasting
+            for x, y, refl in ((a, b, False), (b, a, True)):
+                if isinstance(x, SProto) and hasattr(x, "py_array_compare"):
+                    r = x.py_array_compare(self, op, y, refl)
+                    if r is not NotImplemented:
+                        return r
         if isinstance(op, ast.Eq):
             return mkbool(self.equal(a, b))
         if isinstance(op, ast.NotEq):
